@@ -293,7 +293,68 @@ func (s *Sim) opMisuse(op *Op) {
 			return
 		}
 		r := RelTypes[abs(op.N)%len(RelTypes)]
-		switch abs(int(op.X)) % 4 {
+		switch abs(int(op.X)) % 7 {
+		case 4, 5:
+			// Map.Add / Map.AddFn without the required target, on a mapper that may have been
+			// used with a target before (mappers are cached per world)
+			e := s.M.PickLive(op.E)
+			if e == nil || e.Has(r) {
+				s.skip(op)
+				return
+			}
+			if abs(int(op.X))%7 == 4 {
+				s.expectPanic("Map.Add", "missing_target", func() {
+					singleTargets = singleTargets[:0]
+					s.mapper(r).Add(e.H, []uint64{1}, nil)
+				})
+			} else {
+				s.expectPanic("Map.AddFn", "missing_target", func() {
+					singleTargets = singleTargets[:0]
+					s.mapper(r).AddFn(e.H, func(_ ecs.Entity, _ []unsafe.Pointer) {}, nil)
+				})
+			}
+		case 6:
+			// MapN.Add / ExchangeN.Add with a relation component in the tuple but no target
+			e := s.M.PickLive(op.E)
+			if e == nil {
+				s.skip(op)
+				return
+			}
+			if op.N%2 == 0 {
+				idx := -1
+				for k := 0; k < len(MapTuples); k++ {
+					i := NumMapSingles + (abs(op.Ad)+k)%(len(MapTuples)-NumMapSingles)
+					if len(relTypesOf(MapTuples[i])) > 0 && !e.HasAny(MapTuples[i]...) {
+						idx = i
+						break
+					}
+				}
+				if idx < 0 {
+					s.skip(op)
+					return
+				}
+				tuple := MapTuples[idx]
+				s.expectPanic(mapperName(tuple, idx)+".Add", "missing_target", func() {
+					s.mapper(idx).Add(e.H, make([]uint64, len(tuple)), nil)
+				})
+			} else {
+				idx := -1
+				for k := 0; k < len(ExTuples); k++ {
+					i := (abs(op.Ad) + k) % len(ExTuples)
+					if len(relTypesOf(ExTuples[i])) > 0 && !e.HasAny(ExTuples[i]...) {
+						idx = i
+						break
+					}
+				}
+				if idx < 0 {
+					s.skip(op)
+					return
+				}
+				tuple := ExTuples[idx]
+				s.expectPanic(fmt.Sprintf("Exchange%d.Add", len(tuple)), "missing_target", func() {
+					s.exchanger(idx, nil).Add(e.H, make([]uint64, len(tuple)), nil)
+				})
+			}
 		case 0:
 			s.expectPanic("Unsafe.NewEntity", "missing_target", func() { s.W.Unsafe().NewEntity(s.ids[r], s.ids[2]) })
 		case 1:
